@@ -70,11 +70,13 @@ VARIABLES segs,      \* sequence of segments still on disk; the last one is bein
           exNew,     \* newest exemplar timestamp per label set in the live exemplar storage
           now,       \* next scrape timestamp
           T,         \* ghost: highest truncation time requested so far (= blocks' max time)
-          reused,    \* ghost: a series was issued a ref that still occurs in the untruncated log
+          reused,    \* ghost: a series was issued a ref that occurs in the untruncated log (harmless once the ref is
+                     \* gone from checkpoint + segments, but the untruncated log is no reference any more)
+          reusedLive,\* ghost: a series was issued a ref that still occurs in checkpoint + segments
           nops, hist
 
-vars == <<segs, first, cp, full, hs, exp, lastRef, hmin, hmax, minValid, lastTr, inited, exNew, now, T, reused, nops, hist>>
-View == <<segs, first, cp, full, hs, exp, lastRef, hmin, hmax, minValid, lastTr, inited, exNew, now, T, reused>>
+vars == <<segs, first, cp, full, hs, exp, lastRef, hmin, hmax, minValid, lastTr, inited, exNew, now, T, reused, reusedLive, nops, hist>>
+View == <<segs, first, cp, full, hs, exp, lastRef, hmin, hmax, minValid, lastTr, inited, exNew, now, T, reused, reusedLive>>
 
 Max2(a, b) == IF a >= b THEN a ELSE b
 Min2(a, b) == IF a <= b THEN a ELSE b
@@ -103,7 +105,8 @@ RP0 == [hs |-> {}, exp |-> <<>>, multi |-> <<>>, ex |-> {}, racy |-> {}, tb |-> 
 MapRef(st, r) == IF r \in DOMAIN st.multi THEN st.multi[r] ELSE r
 
 \* one decoded entry, in the order of Head.loadWAL's main loop
-Step(st, e, Tm) ==
+Step(st0_, e, Tm) ==
+  LET st == [st0_ EXCEPT !.lastRef = Max2(@, e.ref)] IN     \* advanceLastSeriesID: every ref found in the WAL
   CASE e.k = "S" ->
          LET same == {s \in st.hs : s.lab = e.lab}
              st1  == [st EXCEPT !.lastRef = Max2(@, e.ref)] IN
@@ -192,7 +195,7 @@ ScriptDup == <<{"Scrape"}, {"Scrape"}, {"Truncate", "Evict"}, {"Scrape"}, {"Rest
 \* side records (exemplar / metadata / tombstone) of a series that is then dropped or duplicated
 ScriptSide == <<{"Scrape"}, {"Exemplar", "Meta", "Delete"}, {"Scrape", "Meta", "Exemplar"}, {"Scrape", "Evict", "Truncate"},
                 {"Truncate", "Restart"}, {"Scrape", "Restart"}, {"Truncate"}>>
-\* the highest ref expires, restart, a new series: ref reuse (KF-C15-4)
+\* the highest ref expires, restart, a new series: must get a fresh ref (was KF-C15-4)
 ScriptReuse == <<{"Scrape"}, {"Scrape"}, {"Scrape", "Meta"}, {"Meta", "Scrape", "Exemplar"}, {"Truncate"},
                  {"Restart"}, {"Scrape"}>>
 
@@ -204,7 +207,7 @@ Log == (IF cp.idx >= 0 THEN Flat(cp.recs) ELSE <<>>) \o Flat(Flat(segs))
 Init == /\ segs = <<<<>>>> /\ first = 0 /\ cp = [idx |-> -1, recs |-> <<>>] /\ full = <<>>
         /\ hs = {} /\ exp = <<>> /\ lastRef = 0 /\ hmin = INF /\ hmax = NEG /\ minValid = NEG
         /\ lastTr = NEG /\ inited = FALSE /\ exNew = [l \in Labs |-> 0] /\ now = 1 /\ T = 0
-        /\ reused = FALSE /\ nops = 0 /\ hist = <<>>
+        /\ reused = FALSE /\ reusedLive = FALSE /\ nops = 0 /\ hist = <<>>
         /\ TLCSet(1, {})
 
 \* WL.Log(recs...) into the active segment (+ ghost copy)
@@ -234,6 +237,7 @@ Scrape(S, cut) ==
                  \cup {[ref |-> refOf(l), lab |-> l, smp |-> {<<now, val(l)>>}, meta |-> 0] : l \in {x \in S : isNew(x)}}
         /\ lastRef' = lastRef + Len(newLabs)
         /\ reused' = \E i \in 1..Len(newLabs), j \in 1..Len(full) : full[j].ref = lastRef + i
+        /\ reusedLive' = \E i \in 1..Len(newLabs), j \in 1..Len(Log) : Log[j].ref = lastRef + i
         /\ hist' = Append(hist, [a |-> "Scrape", labs |-> order, cut |-> cut, t |-> now,
                                  refs |-> [i \in 1..Len(order) |-> refOf(order[i])],
                                  vals |-> [i \in 1..Len(order) |-> val(order[i])]])
@@ -250,7 +254,7 @@ Exemplar(l, dt) ==
                       /\ segs' = Logged(segs, <<rec>>) /\ full' = full \o rec
                       /\ exNew' = [exNew EXCEPT ![l] = t]
                       /\ hist' = Append(hist, [a |-> "Exemplar", lab |-> l, ref |-> s.ref, t |-> t, v |-> v])
-  /\ UNCHANGED <<first, cp, hs, exp, lastRef, hmin, hmax, minValid, lastTr, inited, now, T, reused>>
+  /\ UNCHANGED <<first, cp, hs, exp, lastRef, hmin, hmax, minValid, lastTr, inited, now, T, reused, reusedLive>>
 
 Meta(l) ==
   /\ "Meta" \in Allowed
@@ -259,7 +263,7 @@ Meta(l) ==
                       /\ segs' = Logged(segs, <<rec>>) /\ full' = full \o rec
                       /\ hs' = (hs \ {s}) \cup {[s EXCEPT !.meta = @ + 1]}
                       /\ hist' = Append(hist, [a |-> "Meta", lab |-> l, ref |-> s.ref, v |-> s.meta + 1])
-  /\ UNCHANGED <<first, cp, exp, lastRef, hmin, hmax, minValid, lastTr, inited, exNew, now, T, reused>>
+  /\ UNCHANGED <<first, cp, exp, lastRef, hmin, hmax, minValid, lastTr, inited, exNew, now, T, reused, reusedLive>>
 
 \* Head.Delete(lo, +inf, lab): clamped to the head's, then to the series' time range
 Delete(l, lo) ==
@@ -271,7 +275,7 @@ Delete(l, lo) ==
                       /\ lo2 <= hi2
                       /\ segs' = Logged(segs, <<rec>>) /\ full' = full \o rec
                       /\ hist' = Append(hist, [a |-> "Delete", lab |-> l, ref |-> s.ref, lo |-> lo, lo2 |-> lo2, hi2 |-> hi2])
-  /\ UNCHANGED <<first, cp, hs, exp, lastRef, hmin, hmax, minValid, lastTr, inited, exNew, now, T, reused>>
+  /\ UNCHANGED <<first, cp, hs, exp, lastRef, hmin, hmax, minValid, lastTr, inited, exNew, now, T, reused, reusedLive>>
 
 \* Head.truncateSelectedSeries([ref], maxt = the series' last sample time): the samples were
 \* persisted elsewhere (stale-series / selected-series block); gcSeries then a full-range stone.
@@ -283,14 +287,14 @@ Evict(l) ==
                       /\ hs' = hs \ {s}
                       /\ exp' = SetF(exp, s.ref, SMax(s))
                       /\ hist' = Append(hist, [a |-> "Evict", lab |-> l, ref |-> s.ref, maxt |-> SMax(s)])
-  /\ UNCHANGED <<first, cp, lastRef, hmin, hmax, minValid, lastTr, inited, exNew, now, T, reused>>
+  /\ UNCHANGED <<first, cp, lastRef, hmin, hmax, minValid, lastTr, inited, exNew, now, T, reused, reusedLive>>
 
 \* wlog.Checkpoint: filter of one record (a sequence of entries of one kind)
 FilterRec(rec, keep(_), m) ==
   LET k == rec[1].k IN
   CASE k = "S" -> SelectSeq(rec, LAMBDA e : keep(e.ref))
     [] k = "D" -> SelectSeq(rec, LAMBDA e : e.t >= m)
-    [] k = "X" -> SelectSeq(rec, LAMBDA e : e.t >= m)
+    [] k = "X" -> SelectSeq(rec, LAMBDA e : e.t >= m /\ keep(e.ref))     \* dropped with its series record
     [] k = "T" -> SelectSeq(rec, LAMBDA e : keep(e.ref) /\ e.t2 >= m)
     [] k = "M" -> <<>>
 RECURSIVE FilterRecs(_, _, _)
@@ -298,18 +302,15 @@ FilterRecs(recs, keep(_), m) ==
   IF recs = <<>> THEN <<>>
   ELSE LET r == FilterRec(Head(recs), keep, m) IN
        (IF r = <<>> THEN <<>> ELSE <<r>>) \o FilterRecs(Tail(recs), keep, m)
-\* latestMetadataMap: last metadata entry per kept ref
+\* latestMetadataMap: last metadata entry per kept ref, written in the order in which these last entries
+\* occur in the input ("stream"); "reverse" is the opposite order (what Go map iteration could produce
+\* before the repair of KF-C15-3; not explored by the cfgs any more)
 LatestMeta(es, keep(_)) ==
   LET ms == SelectSeq(es, LAMBDA e : e.k = "M" /\ keep(e.ref))
-      refs == {ms[i].ref : i \in 1..Len(ms)}
-      last(r) == ms[SetMax({i \in 1..Len(ms) : ms[i].ref = r})] IN
-  {last(r) : r \in refs}
-RECURSIVE MetaRec(_, _)
-MetaRec(S, ord) ==
-  IF S = {} THEN <<>>
-  ELSE LET e == IF ord = "asc" THEN CHOOSE x \in S : \A y \in S : x.ref <= y.ref
-                               ELSE CHOOSE x \in S : \A y \in S : x.ref >= y.ref IN
-       <<e>> \o MetaRec(S \ {e}, ord)
+      lastIdx == {i \in 1..Len(ms) : ~\E j \in (i + 1)..Len(ms) : ms[j].ref = ms[i].ref} IN
+  SelectSeq([i \in 1..Len(ms) |-> [e |-> ms[i], last |-> i \in lastIdx]], LAMBDA x : x.last)
+MetaRec(q, ord) ==
+  LET n == Len(q) IN [i \in 1..n |-> IF ord = "stream" THEN q[i].e ELSE q[n + 1 - i].e]
 
 Truncate(m, ord, k) ==
   /\ "Truncate" \in Allowed /\ m > T /\ m <= now
@@ -319,8 +320,8 @@ Truncate(m, ord, k) ==
             /\ hmin' = m /\ minValid' = m /\ hmax' = Max2(hmax, m) /\ inited' = TRUE
             /\ hist' = Append(hist, [a |-> "Truncate", m |-> m, ckpt |-> FALSE, ord |-> ord, k |-> 0, first |-> first,
                                      last |-> first + Len(segs) - 1])
-            /\ ord = "asc" /\ k = 0
-            /\ UNCHANGED <<segs, first, cp, full, hs, exp, lastRef, lastTr, exNew, now, reused>>
+            /\ ord = "stream" /\ k = 0
+            /\ UNCHANGED <<segs, first, cp, full, hs, exp, lastRef, lastTr, exNew, now, reused, reusedLive>>
        ELSE
          LET memSkip == hmin >= m                      \* truncateMemory returns early
              dead  == IF memSkip THEN {} ELSE {s \in hs : SMax(s) < m}
@@ -339,7 +340,7 @@ Truncate(m, ord, k) ==
                        \o Flat([i \in 1..(last1 - first + 1) |-> segs1[i]])
              metas == LatestMeta(Flat(inRecs), keep)
              outRecs == FilterRecs(inRecs, keep, m)
-                        \o (IF metas = {} THEN <<>> ELSE <<MetaRec(metas, ord)>>)
+                        \o (IF metas = <<>> THEN <<>> ELSE <<MetaRec(metas, ord)>>)
          IN /\ hs' = rest
             /\ IF memSkip THEN UNCHANGED <<hmin, minValid, hmax>>
                ELSE hmin' = m /\ minValid' = m /\ hmax' = Max2(hmax, m)
@@ -350,11 +351,11 @@ Truncate(m, ord, k) ==
                     /\ segs' = SubSeq(segs1, last1 - first + 2, Len(segs1))
                     /\ first' = last1 + 1
                     /\ exp' = [r \in {x \in DOMAIN exp1 : exp1[x] >= m} |-> exp1[r]]
-            /\ (ord = "desc") => (ckpt /\ Cardinality(metas) > 1)     \* the order only matters then
+            /\ (ord # "stream") => (ckpt /\ Len(metas) > 1)          \* the order only matters then
             /\ hist' = Append(hist, [a |-> "Truncate", m |-> m, ckpt |-> ckpt, ord |-> ord, k |-> k,
                                      first |-> IF ckpt THEN last1 + 1 ELSE first,
                                      last |-> IF walSkip THEN L ELSE L + 1])
-            /\ UNCHANGED <<full, lastRef, inited, exNew, now, reused>>
+            /\ UNCHANGED <<full, lastRef, inited, exNew, now, reused, reusedLive>>
 
 \* Head.Close ; wlog.NewSize (always starts a new segment) ; NewHead ; Init(T)
 Restart ==
@@ -367,9 +368,9 @@ Restart ==
                               lastRef |-> fin.lastRef])
   /\ segs' = Append(segs, <<>>)
   /\ minValid' = T /\ lastTr' = NEG
-  /\ UNCHANGED <<first, cp, full, now, T, reused>>
+  /\ UNCHANGED <<first, cp, full, now, T, reused, reusedLive>>
 
-End == (nops = MaxOps \/ reused) /\ nops <= MaxOps /\ nops' = MaxOps + 1 /\ UNCHANGED <<segs, first, cp, full, hs, exp, lastRef, hmin, hmax, minValid, lastTr, inited, exNew, now, T, reused, hist>>
+End == (nops = MaxOps \/ reused) /\ nops <= MaxOps /\ nops' = MaxOps + 1 /\ UNCHANGED <<segs, first, cp, full, hs, exp, lastRef, hmin, hmax, minValid, lastTr, inited, exNew, now, T, reused, reusedLive, hist>>
 
 Step1 == \/ \E S \in (SUBSET Labs) \ {{}}, c \in Cuts : Scrape(S, c)
          \/ \E l \in Labs, dt \in ExDts : Exemplar(l, dt)
@@ -408,21 +409,17 @@ KF_C15_1m(L, F, l, v) ==
   \E i \in 1..Len(F) : /\ F[i].k = "M" /\ F[i].v = v
                         /\ \E j \in 1..(i - 1) : F[j].k = "S" /\ F[j].ref = F[i].ref /\ F[j].lab = l
                         /\ \A n \in 1..Len(L) : L[n] = F[i] => n \in Orphans(L)
-\* KF-C15-2: wlog.Checkpoint keeps exemplars by time only (not by keep(ref)); an exemplar newer
-\* than the truncation time whose series record has been dropped is orphaned and lost by the replay.
+\* KF-C15-2 (open; the checkpoint half is repaired: an exemplar is now dropped together with its series
+\* record instead of being left orphaned in the checkpoint): gc()'s keepUntil ignores exemplar timestamps,
+\* so an exemplar newer than the truncation time whose series was garbage-collected loses its series record
+\* -- it is dropped by the checkpoint or orphaned in a segment above it -- and is lost by the replay.
 KF_C15_2(a, b, L) ==
   /\ a.ex \subseteq b.ex
-  /\ \A x \in b.ex \ a.ex : \E i \in Orphans(L) : L[i].k = "X" /\ L[i].t = x.t /\ L[i].v = x.v
-\* KF-C15-3: the checkpoint writes the latest metadata of all kept refs in Go map order into one
-\* record; with two refs for one label set (duplicate series record) replay applies them in that order.
-KF_C15_3(L) == \E i, j \in 1..Len(L) : i # j /\ L[i].k = "M" /\ L[j].k = "M" /\ L[i].ref # L[j].ref
-
-\* KF-C15-4: Head.Init recovers lastSeriesID from series and tombstone records only; once the series
-\* record of the highest ref has expired while other entries of that ref are still in the log
-\* (KF-C15-1), a restart re-issues the ref to a new series, and a later checkpoint moves the old ref's
-\* metadata entry behind the new series record.  `reused` marks the first such step; the reference
-\* (replay of the untruncated log) is meaningless from there on and exploration stops.
-KF_C15_4 == reused
+  /\ \A x \in b.ex \ a.ex : (\E i \in Orphans(L) : (L[i].k = "X" /\ L[i].t = x.t /\ L[i].v = x.v))
+                             \/ (~\E i \in 1..Len(L) : (L[i].k = "X" /\ L[i].t = x.t /\ L[i].v = x.v))
+\* (KF-C15-3, metadata written in Go map order, is repaired: MetaRec "stream".  KF-C15-4, a ref still
+\* mentioned in the log re-issued after a restart, is repaired: Step raises lastRef from every entry; the ghost
+\* `reused` must now stay FALSE -- NoRefReuse is an invariant of the cfgs.)
 
 \* which known findings explain the difference between the two replays (empty: none needed)
 \* an orphaned full-range stone no longer evicts the series, which lives on (with its metadata) under a
@@ -430,31 +427,31 @@ KF_C15_4 == reused
 KF_C15_1t(L) == \E i \in Orphans(L) : FullRange(L[i])
 MetaDropped(a, b, L, F) == \A l \in Labs : a.meta[l] # b.meta[l] => (KF_C15_1m(L, F, l, b.meta[l]) \/ KF_C15_1t(L))
 Explain(a, b, L, F, ru) ==
-  (IF ru THEN {"KF-C15-4"} ELSE {}) \cup
+  (IF ru THEN {"REF-REUSED"} ELSE {}) \cup
   (IF a.ex # b.ex /\ KF_C15_2(a, b, L) THEN {"KF-C15-2"} ELSE {})
   \cup (IF a.meta # b.meta /\ MetaDropped(a, b, L, F) THEN {"KF-C15-1"} ELSE {})
-  \cup (IF a.meta # b.meta /\ KF_C15_3(L) THEN {"KF-C15-3"} ELSE {})
 Explained(a, b, L, F) ==
   /\ a.smp = b.smp /\ a.del = b.del                      \* never excused
   /\ a.ex # b.ex => KF_C15_2(a, b, L)
-  /\ a.meta # b.meta => (MetaDropped(a, b, L, F) \/ KF_C15_3(L))
+  /\ a.meta # b.meta => MetaDropped(a, b, L, F)
 
 RefClosedOrKF == RefClosed \/ KF_C15_1(Log)
-ReplayEquivOrKF == ReplayEquiv \/ Explained(CTrunc, CWhole, Log, full) \/ KF_C15_4
-\* the hazard behind KF-C15-4 as a formula of its own (violated by the design)
-NoRefReuse == ~reused
+ReplayEquivOrKF == reused \/ ReplayEquiv \/ Explained(CTrunc, CWhole, Log, full)
+\* a ref that still occurs in the (untruncated) log is never issued again
+NoRefReuse == ~reusedLive
 
 \* checked without exception: no entry that still matters is ever orphaned ...
 NoLiveOrphan == \A i \in Orphans(Log) : ~Live(Log[i], T) \/ Log[i].k = "X"
 \* ... and samples / tombstones at or after T are reconstructed exactly
-SamplesSurvive == KF_C15_4 \/ (CTrunc.smp = CWhole.smp /\ CTrunc.del = CWhole.del)
+SamplesSurvive == reused \/ (CTrunc.smp = CWhole.smp /\ CTrunc.del = CWhole.del)
 
 \* the same formulas with the two replays evaluated once (used by the quick cfgs)
 C15All ==
   LET L == Log  rt == Replay(L, T)  rf == Replay(full, T)  ign == rt.racy \cup rf.racy
       a == Content(rt, T, ign)  b == Content(rf, T, ign) IN
   /\ \A i \in Orphans(L) : ~Live(L[i], T) \/ L[i].k = "X"      \* NoLiveOrphan (= RefClosedOrKF)
-  /\ (reused \/ a = b \/ Explained(a, b, L, full))                              \* ReplayEquivOrKF, SamplesSurvive
+  /\ (reused \/ a = b \/ Explained(a, b, L, full))             \* ReplayEquivOrKF, SamplesSurvive
+  /\ ~reusedLive                                               \* NoRefReuse
 
 TypeOK == /\ first >= 0 /\ Len(segs) >= 1 /\ cp.idx < first
           /\ \A s \in hs : s.smp # {}
